@@ -413,6 +413,14 @@ func streamIntraProxyRouting(
 	context.AfterFunc(lifetime, func() {
 		shutdownChan.Shutdown()
 	})
+	// The peer ends an intra-proxy stream by cancelling it. The sender only notices that in
+	// Recv; while it is blocked handing an ACK to a shard owner whose queue is full it watches
+	// nothing but shutdownChan, so without this the handler and the sender would outlive the
+	// stream for as long as that queue stays full (for good, if its reader has ended).
+	stopOnStreamEnd := context.AfterFunc(streamServer.Context(), func() {
+		shutdownChan.Shutdown()
+	})
+	defer stopOnStreamEnd()
 	go func() {
 		if err := sender.Run(streamServer, shutdownChan); err != nil {
 			logger.Error("intraProxyStreamSender.Run error", tag.Error(err))
